@@ -30,7 +30,7 @@ ASSUMPTIONS = [
 ]
 TECHNIQUE = "property-based testing against closed-form piecewise propagation + differential (protocol vs manual step loop) + expected-index-set oracle"
 LEVEL_TEXT = "Generated protocols and grids, fresh and continued; states compared with the matrix exponential, index sets with the statement, fluxes with per-step recomputation, and the protocol form with an equivalent manual loop."
-LEVEL_NOTE = "Trusted: scipy.linalg.expm, pandas Timedelta arithmetic; linear networks only."
+LEVEL_NOTE = "Trusted: vlib.linear.expm, pandas Timedelta arithmetic; linear networks only."
 
 
 def budget(tier: str) -> dict:
